@@ -92,7 +92,10 @@ class ProcessWorker(Worker):
         else:
             try:
                 self._ctrl_comms.parent_end.put('terminate')
-                self._ctrl_comms.parent_end.get()
+                # wait for the child's control thread to acknowledge (it closes its end), but no longer than
+                # the timeout: the child may be unable to run any Python code at the moment
+                if self._ctrl_comms.parent_end.poll(timeout):
+                    self._ctrl_comms.parent_end.get()
             except (BrokenPipeError, queue.Empty):
                 pass
 
